@@ -1,6 +1,7 @@
 //! lsverif: property-based testing / fuzzing harness for thaumant/lucid-suggest (see /verif/DESIGN.md)
 pub mod core;
 pub mod engine;
+pub mod fuzz;
 pub mod gen;
 pub mod model;
 pub mod props;
